@@ -320,7 +320,48 @@ def rule_phase_pivot(ctx: Ctx) -> None:
             ctx.ok("phase.pivot", m, b, what=f"global phase taken at a provably non-zero entry of {mat}")
 
 
+def rule_simplify_member(ctx: Ctx) -> None:
+    """simplify.member: simplify_local_clifford answers with a member of the 24-element table on every path: each return value is what
+    find_local_clifford_by_matrix returned for the product matrix of the input list.  Returning (a copy of) the input under some
+    cheaper syntactic test is not provably a member: such tests accept lists like [I, X, X] that merely *look* tabulated."""
+    repo = ctx.repo
+    m = repo.module(OPS)
+    fn = repo.anchor(OPS, "simplify_local_clifford")
+    ctx.touch(m, fn)
+    lst = func_params(fn)[0]
+    env = {}
+    for a in ast.walk(fn):
+        if isinstance(a, ast.Assign) and len(a.targets) == 1 and isinstance(a.targets[0], ast.Name):
+            env.setdefault(a.targets[0].id, []).append(a.value)
+
+    def from_lookup(e, depth=0):
+        if isinstance(e, ast.Call) and call_name(e) == "find_local_clifford_by_matrix" and e.args:
+            # its argument is the matrix of the whole input list
+            a0 = e.args[0]
+            srcs = [a0] + (env.get(a0.id, []) if isinstance(a0, ast.Name) else [])
+            return any(isinstance(x, ast.Call) and call_name(x) == "local_clifford_to_matrix_map" and x.args and norm(x.args[0]) == lst for s_ in srcs for x in ast.walk(s_))
+        if isinstance(e, ast.Name) and depth < 3 and e.id in env:
+            return all(from_lookup(v, depth + 1) for v in env[e.id])
+        if isinstance(e, ast.Call) and call_name(e) in ("list", "tuple") and e.args:
+            return from_lookup(e.args[0], depth + 1)
+        return False
+    rets = [r for r in ast.walk(fn) if isinstance(r, ast.Return) and r.value is not None]
+    if not rets:
+        raise AnalysisError("simplify_local_clifford: no return value")
+    for r in rets:
+        if from_lookup(r.value):
+            ctx.ok("simplify.member", m, r, what="result comes from the table lookup of the product matrix")
+        else:
+            ctx.fail("simplify.member", m, r,
+                     f"simplify_local_clifford returns `{short(r.value)}` on a path that does not go through find_local_clifford_by_matrix(matrix of "
+                     f"the whole list): the result need not be one of the 24 tabulated forms ([I, X, X] is returned unchanged), so a cancelled "
+                     f"gate is no longer recognised as [Identity, Identity]", func="simplify_local_clifford",
+                     construct="simplify_local_clifford: return that bypasses the table lookup")
+
+
 def run(ctx: Ctx) -> None:
+    rule_simplify_member(ctx)
+    gatesum.rule_derived_gates(ctx)  # both backends must realise each elementary gate: the stabilizer side's derived gates
     from ..rules import memo as _memo
     _memo.rule_memo_sound(ctx, ['graphiq/circuit/ops.py', 'graphiq/backends/density_matrix/functions.py'])
     _memo.rule_falsy_zero(ctx, ['graphiq/circuit/ops.py', 'graphiq/backends/density_matrix/functions.py'])
@@ -334,6 +375,7 @@ def run(ctx: Ctx) -> None:
 
 
 KNOCKOUTS = [
+    Knockout("simplify-early-return", OPS, sub_once("    matrix = local_clifford_to_matrix_map(gate_list)\n\n    return find_local_clifford_by_matrix(matrix)", "    if len(gate_list) == 2:\n        return gate_list\n    matrix = local_clifford_to_matrix_map(gate_list)\n\n    return find_local_clifford_by_matrix(matrix)"), "simplify.member", "bypasses the table lookup"),
     Knockout("phase-pivot-mixed", DMF, sub_once("    column = nonzero[1][0]\n", "    column = nonzero[1][-1]\n"), "phase.pivot", "not provably non-zero"),
     Knockout("E5-duplicate", OPS, sub_once("        [Hadamard, Phase],\n", "        [Phase, Phase, Phase, Phase],\n"), "table.clifford24", "duplicate"),
     Knockout("E5-matrix-map", OPS, sub_once("        Phase.__name__: dmf.phase(),", "        Phase.__name__: dmf.phase_dag(),"), "table.clifford24", "Phase"),
